@@ -1,7 +1,9 @@
 #!/bin/bash
 # run.sh <ID> quick|thorough            run the check of one property
 # run.sh <ID> replay <file>             re-execute one recorded violation
-# Rebuilds the overlay from /repo's working tree and the check binary every time.
+# Rebuilds the overlay from the repository's working tree and the check binary every time.
+# VERIF_REPO=<dir>  check that tree instead of /repo (used by mutate.sh on scratch worktrees);
+#                   evidence and replays then go to build/alt/<name>/ instead of /verif.
 set -u
 cd "$(dirname "$0")"
 V=$(pwd)
@@ -11,25 +13,41 @@ shift; shift || true
 export GOFLAGS=-mod=mod GOPROXY=off GOSUMDB=off GOTOOLCHAIN=local
 export GOCACHE=$V/build/gocache
 export VERIF_ROOT=$V
+REPO=${VERIF_REPO:-/repo}
 id=$(echo "$ID" | tr 'A-Z' 'a-z')
 mkdir -p build/bin build/ov evidence
-cp /repo/go.sum go.sum 2>/dev/null
+OVDIR=build/ov
+BIN=build/bin/$id
+MODFLAG=""
+if [ "$REPO" != "/repo" ]; then
+  name=$(echo "$REPO" | tr -c 'A-Za-z0-9' '_')
+  ALT=build/alt/$name
+  mkdir -p $ALT/ov $ALT/out
+  sed "s#=> /repo#=> $REPO#" go.mod > $ALT/go.mod
+  cp $REPO/go.sum $ALT/go.sum
+  OVDIR=$ALT/ov
+  BIN=$ALT/$id
+  MODFLAG="-modfile=$ALT/go.mod"
+  export VERIF_OUT=$V/$ALT/out
+else
+  cp /repo/go.sum go.sum 2>/dev/null
+fi
 LOCK=build/.build.lock
 (
   flock 9
   if [ ! -x build/bin/mcrewrite ] || [ cmd/mcrewrite/main.go -nt build/bin/mcrewrite ]; then
     go build -o build/bin/mcrewrite ./cmd/mcrewrite || exit 2
   fi
-  build/bin/mcrewrite -repo /repo -out build/ov -shim mc -hooks hooks >build/ov/rewrite.log 2>&1 || { cat build/ov/rewrite.log; exit 2; }
+  build/bin/mcrewrite -repo $REPO -out $OVDIR -shim mc -hooks hooks >$OVDIR/rewrite.log 2>&1 || { cat $OVDIR/rewrite.log; exit 2; }
   RACE=""
   [ -f checks/$id/RACE ] && RACE="-race"
-  OV=build/ov/overlay.json
-  [ -f checks/$id/OSHOOK ] && OV=build/ov/overlay_os.json
-  go build $RACE -overlay $OV -o build/bin/$id ./checks/$id || exit 2
+  OV=$OVDIR/overlay.json
+  [ -f checks/$id/OSHOOK ] && OV=$OVDIR/overlay_os.json
+  go build $MODFLAG $RACE -overlay $OV -o $BIN ./checks/$id || exit 2
 ) 9>$LOCK
 rc=$?
 if [ $rc -ne 0 ]; then
   echo "BUILD-ERROR property=$ID (overlay or check binary did not build from the current tree)"
   exit 2
 fi
-exec build/bin/$id "$TIER" "$@"
+exec $BIN "$TIER" "$@"
